@@ -164,6 +164,21 @@ class verify_board_dealing:
                 and 1 <= len(r) <= owed[0] and (cards is not None or len(r) == owed[0]))
 
 
+@contract(Q + 'verify_standing_pat_or_discarding', 'C10')
+class verify_standing_pat_or_discarding:
+    args = {'cards': Cards()}
+    argnames = ('cards',)
+    raises = {REFUSAL: None}
+
+    def requires(s):
+        return rows_ok(s)
+
+    @P('C10', 'in a draw round a player discards only cards he holds: no card more often than he holds it')
+    def accepted_discards_are_held(s, r):
+        i = min(j for j in range(s.player_count) if s.standing_pat_or_discarding_statuses[j])
+        return all(sum(1 for y in r if y == x) <= sum(1 for y in s.hole_cards[i] if y == x) for x in r)
+
+
 @contract(Q + 'verify_card_burning', 'C10')
 class verify_card_burning:
     args = {'card': ArgSpec(kind='opt_cards', cap=2)}
